@@ -320,7 +320,9 @@ def _errors(res, f, ev, liberr, OKV, FAILV):
                     seen.add(e.a)
                     res.check(c is not None and LT not in c, "C15.R3", sig, "success only after %s returned >= 0" % e.a,
                               "%s result (<0 = failure) is not tested before success is reported" % e.a, f.loc(e.node), p.describe(f))
-                elif failure and c is not None and EQ in c and GT not in c:
+                elif failure and c is not None and EQ in c and GT not in c and not [
+                        x for x in p.events[p.events.index(e) + 1:] if x.kind == "branch" and isinstance(x.a, tuple) and tuple(x.a) != (sym, "#0")]:
+                    # (a refusal that also depends on something else - e.g. 0 bytes where more were announced - is not judged)
                     # the failure exit is taken for a result of 0: the number of bytes produced for an empty original
                     seen.add(e.a)
                     res.bad("C15.R3", sig + ":zero-is-legal",
